@@ -116,6 +116,7 @@ def env_case(job):
     rec.update({"n": int(force.size), "method": method, "label": label,
                 "degenerate": bool(degenerate), "pow2_same": True,
                 "shift_same": True, "scale_close": True,
+                "bigshift_close": True,
                 "fallback_ok": True})
     if rec["raised"]:
         return rec
@@ -135,6 +136,13 @@ def env_case(job):
         r = call(force + c, method)
         if r["raised"] or r["cp"] != rec["cp"]:
             rec["shift_same"] = False
+    for k in (2 ** 18, -3 * 2 ** 17):
+        c = k * round(span / Q) * Q
+        if not np.array_equal((force + c) - c, force):
+            continue          # (not exact for this array: not a fair test)
+        r = call(force + c, method)
+        if r["raised"] or abs(r["cp"] - rec["cp"]) > 1:
+            rec["bigshift_close"] = False
     if method in ARITH:
         for c in (3.0, .3, 1e9):
             r = call(force * c, method)
